@@ -38,6 +38,9 @@ GEOMS = {
         dict(bs=512, W=3, cut=0, boff=512, doff=None, itype=3),
         # blocks larger than 1 MiB (VirtualBox allows any power of two); whole-disk and multi-MiB requests over holes
         dict(bs=2 << 20, W=3, cut=4096 + 512, boff=512, doff=4 << 20, big=True),
+        # physical block numbers whose byte position crosses 4 GiB (data offset 2 MiB + block 4094 MiB = 4 GiB) and 2^31 sectors
+        dict(bs=1 << 20, W=3, cut=512, boff=512, doff=2 << 20, big=True, slot_off=4093),
+        dict(bs=1 << 20, W=3, cut=512, boff=512, doff=2 << 20, big=True, slot_off=(1 << 20) - 3),
         # windows deep inside the block map (index thresholds such as 1024 / 4096 are typical chunk and cache sizes)
         dict(bs=4096, W=3, cut=512, boff=512, doff=None, at=1022),
         dict(bs=512, W=3, cut=0, boff=1024, doff=None, at=4094),
@@ -101,7 +104,9 @@ def run_case(case, ctx):
     bs = g["bs"]
     size = len(states) * bs - g["cut"]
     buf = bootstrap.bufsize()
-    img = B.build(states, slots, bs, size, g["boff"], g["doff"], image_type=g.get("itype", 1))
+    so = g.get("slot_off", 0)
+    img = B.build(states, [None if p is None else p + so for p in slots], bs, size, g["boff"], g["doff"],
+                  image_type=g.get("itype", 1), **({"tail_slack": False} if so else {}))
     disk = B.model(states, bs, size)
     ctx.model([g, states, slots])
     ctx.executions += 1
